@@ -52,11 +52,11 @@ EOF
       echo "HARNESS-ERROR: tl2gen rejected the universe for option set $cfg (see below)" >&2
       grep -v "warning" "$VERIF_SCRATCH/gen_$cfg.log" | tail -20 >&2; return 2; }
     mkdir -p "$M/glue_$cfg"
-    local bytesimp=""
-    [ -d "$M/gen_$cfg/factory_bytes" ] && bytesimp="_ \"exp/gen_$cfg/factory_bytes\""
+    local bytesimp="" hasbytes=false
+    [ -d "$M/gen_$cfg/factory_bytes" ] && { bytesimp="_ \"exp/gen_$cfg/factory_bytes\""; hasbytes=true; }
     local tmpl="$VG/glue.go.tmpl"
     case "$cfg" in p0|r0) tmpl="$VG/glue_notl2.go.tmpl" ;; esac
-    sed -e "s/CFG/$cfg/g" -e "s#BYTESIMPORT#$bytesimp#" "$tmpl" > "$M/glue_$cfg/glue.go"
+    sed -e "s/CFG/$cfg/g" -e "s/HASBYTES/$hasbytes/" -e "s#BYTESIMPORT#$bytesimp#" "$tmpl" > "$M/glue_$cfg/glue.go"
     imports="$imports	_ \"exp/glue_$cfg\"
 "
   done
